@@ -281,7 +281,11 @@ class CanonIP(c03.Canon):
 
 def jump_rows(fx, fq):
     f = fx.fns[fq]
-    rs = Symx(fx, spec=255, max_paths=2000, snapshot_refs=True).run(f)
+    # private helpers of the instruction modules are followed (a read moved into a helper is the
+    # same read); the two-byte readers stay opaque, they are the vocabulary of the reference
+    inline = {g.nq for g in fx.fns_all if g.kind == 'Fn' and g.nq.startswith('revm_interpreter::instructions::') and g.nq != fq
+              and g.argc >= 1 and 'Interpreter' in g.local_ty(1) and '::i256::' not in g.nq}
+    rs = Symx(fx, spec=255, max_paths=2000, snapshot_refs=True, inline=inline, max_depth=3).run(f)
     rows = []
     unknown = []
     for p in rs:
@@ -385,33 +389,50 @@ def check_rjumps(fx, rep):
 
 # ------------------------------------------------------------------------------ inventories
 
+def module_of(short):
+    """module of a function path: without closure suffixes, the function name and an impl type"""
+    if short.startswith('<'):
+        return '<trait impls>'
+    parts = [p for p in short.split('::') if not p.startswith('{closure')]
+    parts = parts[:-1]
+    while parts and parts[-1][:1].isupper():
+        parts = parts[:-1]
+    return '::'.join(parts) or '(crate root)'
+
+
 def check_inventory(fx, rep):
+    """granularity is the module: moving an unsafe operation or a panic site into a helper of the
+    same module is not reported; a kind of unsafe operation or panic the module did not contain is"""
     import c25_inventory as INV
     unsafe, panics = inventory(fx)
+    allowed_u, allowed_p = {}, {}
+    for fn_, ops in INV.UNSAFE.items():
+        allowed_u.setdefault(module_of(fn_), set()).update(ops)
+    for fn_, cnt in INV.PANICS.items():
+        allowed_p.setdefault(module_of(fn_), set()).update(cnt)
     n = 0
     for short, ops in sorted(unsafe.items()):
-        cl = class_of(short)
-        allowed = set(INV.UNSAFE.get(short, ()))
+        mod = module_of(short)
         f = fx.fns.get(P + short)
         where = f.where() if f is not None else None
         for op in sorted(ops):
             n += 1
-            if cl is None or op not in allowed:
-                rep.violation('R4-unsafe-inventory', '%s:%s' % (short, op),
-                              'unsafe operation `%s` in %s is not part of the confirmed inventory (no rule discharges its safety obligation)' % (op, short), where)
+            if op not in allowed_u.get(mod, ()):
+                rep.violation('R4-unsafe-inventory', '%s:%s' % (mod, op),
+                              'unsafe operation `%s` (in %s) is of a kind the module %s did not contain: no rule discharges its safety obligation' % (op, short, mod), where)
             else:
-                rep.ok('R4-unsafe-inventory', '%s:%s' % (short, op), cl, nontrivial=False)
+                rep.ok('R4-unsafe-inventory', '%s:%s' % (short, op), class_of(short) or mod, nontrivial=False)
     rep.floor('R4-unsafe-sites', n, 140)
     m = 0
     for short, cnt in sorted(panics.items()):
-        allowed = INV.PANICS.get(short, {})
+        mod = module_of(short)
         f = fx.fns.get(P + short)
         where = f.where() if f is not None else None
         for kind, c in sorted(cnt.items()):
             m += c
-            if c > allowed.get(kind, 0):
-                rep.violation('R5-panic-inventory', '%s:%s' % (short, kind),
-                              '%s contains %d `%s` panic site(s), the confirmed inventory has %d: a new way to panic on some input' % (short, c, kind, allowed.get(kind, 0)), where)
+            if kind not in allowed_p.get(mod, ()):
+                rep.violation('R5-panic-inventory', '%s:%s' % (mod, kind),
+                              '%s contains a `%s` panic site; the module %s had none of that kind: a new way to panic on some input' % (short, kind, mod), where)
             else:
                 rep.ok('R5-panic-inventory', '%s:%s' % (short, kind), '%d site(s)' % c, nontrivial=False)
     rep.floor('R5-panic-sites', m, 40)
